@@ -486,6 +486,11 @@ func runWorld(in *RunInput) *Result {
 	}
 	if in.Faults {
 		cfg.SpikeProb = float64(w.KnobPick("net.spike_pm", 0, 0, 1, 5)) / 1000
+		if mss < 64 {
+			// a spike is drawn per segment and delays everything behind it: with byte-sized segments a few per mille mean
+			// a path that carries less than 100 bytes per second, on which not even a login completes within its deadline
+			cfg.SpikeProb = 0
+		}
 	}
 	if w.Knob("net.const_latency", 0, 1) == 1 {
 		cfg.ConstLatency = true
